@@ -933,6 +933,7 @@ impl<'a, E: quiver_core::effects::Effect> Compiler<'a, E> {
         helpers::check_field_name_duplicates(&fields, |f| f.name.as_ref())?;
 
         // `~[..., y]` / `a[..., y]` inherit the result name from their first spread's source.
+        let inherit_name = matches!(name, ast::TupleName::Inherit);
         let tuple_name = match name {
             ast::TupleName::Anonymous => None,
             ast::TupleName::Named(name) => Some(name),
@@ -944,7 +945,13 @@ impl<'a, E: quiver_core::effects::Effect> Compiler<'a, E> {
 
         if contains_spread {
             // Use specialized compilation for tuples with spreads
-            return spread::compile_tuple_with_spread(self, tuple_name, fields, ripple_context);
+            return spread::compile_tuple_with_spread(
+                self,
+                tuple_name,
+                inherit_name,
+                fields,
+                ripple_context,
+            );
         }
 
         // Per-field expected types from a positionally-matching expected tuple type, used to infer
